@@ -4,7 +4,7 @@ import seqfam, vlib
 
 ASSUME = ["greedy quantifiers only; ONE ROW PER MATCH; MEASURES MATCH_NUMBER(), FIRST(id), LAST(id), COUNT(*) identify a match",
           "DEFINE conditions: v > c, v < c, v > PREV(v), v < PREV(v) (the latter two never on the pattern's first variable), running SUM(v) <= c / COUNT(*) <= c over the match so far, or undefined (true)",
-          "scenarios stay far below maxRunRows / maxRuns / maxPartitions and use no WITHIN; empty matches are not reported",
+          "scenarios stay far below maxRunRows / maxRuns / maxPartitions; WITHIN is exercised on epoch timestamps ahead of the wall clock (the sweeper, a wall-clock device, is C15/B3's idle scenario); empty matches are not reported",
           "all matches are compared after Stop (flush), per partition in delivery order"]
 
 
@@ -212,6 +212,28 @@ def mk_within_skew(rng):
     return sc
 
 
+def mk_within_cut(rng):
+    """WITHIN that cuts: event times a few seconds apart with a jump beyond WITHIN now and then - the match reported for a start is the
+    longest word that FITS (its last event at most WITHIN after its first); the event beyond is the start of what follows. Epoch
+    timestamps an hour ahead of the wall clock (the engine's sweeper, which works on the wall clock, stays out of it); the monitor reads
+    the relative time rt (seconds)"""
+    sc = mk(rng, rng.random() < 0.5, rng.choice([1, 2]))
+    if "ops" in sc:
+        return None
+    import time
+    base = int(time.time() * 1000) + 3600 * 1000
+    W = rng.choice([5, 10])
+    clock = {}
+    for r in sc["rows"]:
+        g = json.dumps(r.get("g"))
+        clock[g] = clock.get(g, 0) + (rng.choice([1, 2, 3]) if rng.random() < 0.75 else rng.choice([W - 1, W, W + 1, W + 7, 3 * W]))
+        r["rt"] = clock[g]
+        r["ts"] = base + clock[g] * 1000
+    sc["sql"] = sc["sql"].replace(" DEFINE ", " WITHIN '%ds' DEFINE " % W, 1)
+    sc["meta"]["within"] = W
+    return sc
+
+
 def mk_allrows(rng, nparts):
     """ALL ROWS PER MATCH with CLASSIFIER(): patterns in which one row may satisfy the DEFINE of two variables (A B* C with rows that are
     both B and C): whatever classification the engine reports must spell a word of the pattern with every row satisfying ITS variable's
@@ -255,6 +277,11 @@ def run(tier):
     made = 0
     while made < (200 if quick else 6000):
         sc = mk_within_skew(rng)
+        if sc is not None:
+            scen.append(sc); made += 1
+    made = 0
+    while made < (300 if quick else 8000):
+        sc = mk_within_cut(rng)
         if sc is not None:
             scen.append(sc); made += 1
     seqfam.run_scenarios(res, scen, "TraceCep", tag="cep", relayout_p=0.3, retype_p=0.3, rename_p=0.3)
